@@ -439,7 +439,7 @@ func (e *Env) runMethods() error {
 		if !m.IsValid() {
 			continue // reported by the first pass
 		}
-		const K = 4
+		const K = 8 // goroutines (four until round 9: under load the overlap was missed once)
 		var wants [][]byte
 		var calls [][]reflect.Value
 		for k := uint64(0); k < K; k++ {
